@@ -457,11 +457,14 @@ func one(src string) (stage, pan string) {
 				continue
 			}
 			tried++
-			c3, cancel3 := context.WithTimeout(ctx, 15*time.Millisecond)
-			_, err := risor.Call(c3, code, names[i], nil, risor.WithOS(ros.NewVirtualOS(c3)), risor.WithoutGlobals(denied...), risor.WithConcurrency())
-			cancel3()
-			if err != nil {
-				touch(err)
+			// without arguments, with one and with two (a function is only entered with the number it takes)
+			for _, args := range [][]object.Object{nil, {object.NewInt(1)}, {object.NewInt(1), object.NewInt(2)}} {
+				c3, cancel3 := context.WithTimeout(ctx, 15*time.Millisecond)
+				_, err := risor.Call(c3, code, names[i], args, risor.WithOS(ros.NewVirtualOS(c3)), risor.WithoutGlobals(denied...), risor.WithConcurrency())
+				cancel3()
+				if err != nil {
+					touch(err)
+				}
 			}
 		}
 	}
